@@ -18,7 +18,7 @@ EmitVS == /\ Assert(RoundTripLaw(dt), <<"the round trip law fails in the model f
 
 (* C03: for the type dt = a, the allowed verdicts of a.compatible(b) for every b of the catalogue *)
 EmitPairs == LET all == TypeSeq(Tier) IN
-    /\ Assert(\A i \in 1 .. Len(all) : Supported(dt, all[i]) => Subset(dt, all[i]),
+    /\ Assert(\A i \in 1 .. Len(all) : (~HasLimit(dt) /\ ~HasLimit(all[i]) /\ Supported(dt, all[i])) => Subset(dt, all[i]),
               <<"a supported pairing whose value sets are not nested, a =", dt>>)
     /\ PrintT(<<"PAIRS", ToJson([a |-> dt, ai |-> CHOOSE i \in 1 .. Len(all) : all[i] = dt,
                               pairs |-> [i \in 1 .. Len(all) |-> [allowed |-> AllowedPass(dt, all[i]), b |-> all[i]]]])>>)
